@@ -202,10 +202,10 @@ check("C15", "any request gets a well-formed answer", "exploration",
       "grammar-based request generator in rapid sequences over prepared states + the same generator under Go's native coverage-guided fuzzer (thorough); oracle = no panic, no 5xx on healthy storage, OCI error schema + code table + condition-specific codes, independent router",
       "Randomised search over methods, paths assembled from hostile and valid segments, boundary query values, headers and bodies, sent in sequences of up to 15 over six prepared states (empty, populated "
       "with paged referrers, open sessions, read-only, dir root with a corrupt and a legacy repository); the thorough tier additionally runs the generator under 'go test -fuzz' on all cores. A recovered "
-      "handler panic is a violation (in-process transport), every 4xx/5xx body must be an OCI error document with registered codes, and an independently written router decides what must be a 404.",
+      "handler panic is a violation (in-process transport), every 4xx/5xx body must be an OCI error document with registered codes, and an independently written router decides what must be a 404. TestC15Overlap lets the condition arise while the request runs: the body reader of a PATCH/PUT hands over a drawn number of bytes, another client cancels or evicts the session, the rest follows - no 5xx, code BLOB_UPLOAD_UNKNOWN.",
       "Trusted: the independent router/grammar in c15_test.go; the 416 text/plain answer of net/http.ServeContent is exempt from the error-document rule; 5xx is tolerated only for repositories the generator corrupted.",
       "DESIGN.md §3 C15",
-      [R("^TestC15$", 24000, 400000), R("^FuzzC15$", 0, 0, fuzz=600, tiers=("thorough",))])
+      [R("^TestC15$", 24000, 400000), R("^TestC15Overlap$", 4000, 200000), R("^FuzzC15$", 0, 0, fuzz=600, tiers=("thorough",))])
 
 check("C09", "a crash at any filesystem step loses nothing acknowledged and tears nothing", "fault_enumeration",
       "rapid generator of request histories x enumeration of crash points (every mutating file-system call of the fault-free run, modes before/after/torn-write) through the vfs shim; oracle = layout validator + acknowledged-prefix model + all-or-nothing on the interrupted request",
